@@ -43,8 +43,6 @@ MUTANTS = [
      "edits": [{"file": DHELP, "old": "    let bytes = len * core::mem::size_of::<T>();\n    backend.align::<T>()?;", "new": "    let bytes = len * core::mem::size_of::<T>();\n    if len != 0 {\n        backend.align::<T>()?;\n    }"}]},
     {"name": "b60_deserialize_eps_skips_check_header", "kind": "breaking", "expect": ["C10"],
      "edits": [{"file": DES, "old": "        let mut backend = SliceWithPos::new(backend);\n        check_header::<Self>(&mut backend)?;", "new": "        let mut backend = SliceWithPos::new(backend);\n        if false { check_header::<Self>(&mut backend)?; }"}]},
-    {"name": "b05_derived_struct_eps_fields_swapped_2", "kind": "breaking", "expect": ["C05", "C02"],
-     "edits": [{"file": DERIVE, "old": "                            Ok(#name{\n                                #(\n                                    #fields_names: <#fields_types>::#methods(backend)?,\n                                )*\n                            })", "new": "                            let mut __n = 0usize;\n                            #( let #fields_names = <#fields_types>::#methods(backend)?; __n += 1; )*\n                            let _ = __n;\n                            Ok(#name{ #( #fields_names, )* })"}], "note": "this one is actually behaviour preserving (control)", "kind_override": "preserving"},
     # ---------------------------------------------------------------- preserving
     {"name": "p02_question_mark_to_match", "kind": "preserving",
      "edits": [{"file": PRIM, "old": "        let tag = u8::_deserialize_full_inner(backend)?;\n        match tag {\n            0 => Ok(None),\n            1 => Ok(Some(T::_deserialize_full_inner(backend)?)),", "new": "        let tag = match u8::_deserialize_full_inner(backend) { Ok(t) => t, Err(e) => return Err(e) };\n        match tag {\n            0 => Ok(None),\n            1 => Ok(Some(T::_deserialize_full_inner(backend)?)),"}]},
